@@ -302,6 +302,7 @@ void File_uncompressedFile2CompressedFile(struct File *self) { CALLSITE; g_rp_u2
         ('C13/File/close/write-session-each-worker-is-joined-only-after-what-it-may-wait-for-was-released-(no-thread-left-behind)', 'g_join_u_ready == 1 && g_join_z_ready == 1'),
         ('C13/File/close/write-session-joins-both-workers-exactly-once-and-closes-the-file', 'f.m_uncompressedFileThread.joined == 1 && f.m_compressedFileThread.joined == 1 && g_closed == 1 && !C.copen'),
         ('C05/File/close/restore-point-offset-is-the-file-position-before-the-trailer-when-enabled', '!f.writeRestorePoints || (f.fileStatistics.restorePointsOffset == (uint64_t)cp0 && g_next_calls == 1 && g_rp_q2u == 1 && g_rp_u2c == 1)'),
+        ('C04/File/close/the-trailer-adds-no-object-of-its-own-(the-payload-is-exactly-what-the-application-wrote)', 'g_push_calls == 0 && g_encode_calls == 0'),
         ('C05/File/close/no-trailer-when-restore-points-are-disabled', 'f.writeRestorePoints || (g_next_calls == 0 && g_rp_q2u == 0 && g_rp_u2c == 0 && f.fileStatistics.restorePointsOffset == st0.restorePointsOffset)'),
         ('C05/File/close/header-is-rewritten-at-offset-0-with-file-size-uncompressed-size-and-object-count', 'g_seekp_calls == 1 && g_seekp_arg == 0 && g_stats_written == 1 && g_stats_at_write.fileSize == (uint64_t)(cp0 + (f.writeRestorePoints ? 32 : 0)) && g_stats_at_write.uncompressedFileSize == f.currentUncompressedFileSize && g_stats_at_write.objectCount == f.currentObjectCount'),
         ('C05/File/close/caller-supplied-header-fields-are-stored-verbatim', 'g_stats_at_write.applicationId == st0.applicationId && g_stats_at_write.applicationMajor == st0.applicationMajor && g_stats_at_write.applicationMinor == st0.applicationMinor && g_stats_at_write.applicationBuild == st0.applicationBuild && g_stats_at_write.compressionLevel == st0.compressionLevel && g_stats_at_write.apiNumber == st0.apiNumber && g_stats_at_write.signature == st0.signature && g_stats_at_write.statisticsSize == st0.statisticsSize && g_stats_at_write.measurementStartTime.year == st0.measurementStartTime.year && g_stats_at_write.lastObjectTime.milliseconds == st0.lastObjectTime.milliseconds'),
